@@ -239,6 +239,16 @@ def execute(s, ch):
                 # placement
                 for kind, h, evk, evl, payload in mine:
                     ok = (evk == "line" and evl == line) if ref["where"][0] == "line" else (evk == "call")
+                    if kind == "snapshot" and c["stage"] in ("line_capture", "method_capture"):
+                        # a capture stage collects at the trigger and hands the snapshot over when the line / the method
+                        # ends: after `x = i` (line 2) that is the next line event, after `return x` and for the method
+                        # it is the return event - which then also supplies the captured value
+                        by_return = evk == "return" and evl == 3
+                        ok = by_return if (c["stage"] == "method_capture" or line == 3) else (evk == "line" and evl == 3)
+                        caps = [w_.expression for w_ in payload.watches if w_.source == "CAPTURE"]
+                        if ok and caps != (["return"] if by_return else []):
+                            viol.append(V("snapshot-capture", "%s: handed over at %s:%s with captured results %s" % (
+                                desc, evk, evl, caps)))
                     if not ok:
                         viol.append(V("acted-at-wrong-place:%s" % kind, "%s fired at %s:%s, expected %s" % (desc, evk, evl, ref["where"])))
                 # counts per action kind with the tracepoint's own limits and condition
